@@ -325,34 +325,26 @@ Proof.
 Qed.
 
 (* ------------------------------------------------------------------ scalar attributes *)
-(* current / diameter: for every input that is not a complex number the translated validator stores exactly the
-   documented values and rejects the rest with the library's input error *)
+(* current / diameter: for EVERY input (None, a real number, a complex number, not a number) the translated validator
+   stores exactly the documented values and rejects the rest with the library's input error *)
 Lemma scalar_assign_lemma : forall d r inp, In d sdoc_table -> find_setter (sd_class d) (sd_attr d) = Some r ->
-  inp <> SComplex ->
   assign_scalar r inp = if sdoc_accepts d inp
                         then SStored (match inp with SReal q => Some q | _ => None end) else SRejected.
 Proof.
-  intros d r inp Hin Hf Hc. simpl in Hin.
+  intros d r inp Hin Hf. simpl in Hin.
   repeat (destruct Hin as [<-|Hin]; [vm_compute in Hf; inversion Hf; subst r; clear Hf|]); try contradiction;
-    destruct inp as [|q| |]; try congruence; try reflexivity;
+    destruct inp as [|q| |]; try reflexivity;
     unfold assign_scalar, sdoc_accepts, check_format_input_scalar; cbn [s_val sd_none sd_nonneg andb negb];
     try reflexivity; destruct (Qltb q (qz 0)); reflexivity.
 Qed.
 
-(* the faithful model violates the property on complex numbers: float(complex) raises TypeError *)
-Lemma scalar_complex_crashes_lemma : forall d r, In d sdoc_table -> find_setter (sd_class d) (sd_attr d) = Some r ->
-  assign_scalar r SComplex = SCrashed.
-Proof.
-  intros d r Hin Hf. simpl in Hin.
-  repeat (destruct Hin as [<-|Hin]; [vm_compute in Hf; inversion Hf; subst r; reflexivity|]); contradiction.
-Qed.
-
 (* ------------------------------------------------------------------ handedness *)
+(* every value: a string is accepted iff it is "right" / "left"; anything else -- hashable or not -- is rejected with
+   the library's input error (the type test comes before the set membership test, nothing is hashed) *)
 Lemma handedness_row : exists r, find_setter "Sensor" "handedness" = Some r /\
-  (forall s, assign_member r (MStr s) = if str_mem s ["right"; "left"] then Ok else Bad) /\
-  assign_member r MHashable = Bad /\
-  assign_member r MUnhashable = Crash.
-Proof. eexists. split; [vm_compute; reflexivity|]. split; [|split]; reflexivity. Qed.
+  forall inp, assign_member r inp =
+    match inp with MStr s => if str_mem s ["right"; "left"] then Ok else Bad | _ => Bad end.
+Proof. eexists. split; [vm_compute; reflexivity|]. intros [s| |]; reflexivity. Qed.
 
 (* ------------------------------------------------------------------ accepted_then_computable (ranks) *)
 (* every key of a registered class's _field_func_kwargs_ndim that is a settable attribute: the rank the table
